@@ -323,6 +323,23 @@ def run_check(prop, spec, tier, seed):
     ranges = {m: theorem_ranges(m) for m in mods}
     status = {}     # obligation id -> (ok, reason)
     thms = []
+    unaudited = set()
+    srcs_cache = {}
+
+    def broken_names(m):
+        """theorems of module m whose range contains an error"""
+        out = set()
+        for t, (lo, hi) in ranges[m].items():
+            if any(lo <= e[0] <= hi for e in errors.get(m, [])):
+                out.add(t)
+        return out
+
+    def text_of(m, t):
+        if m not in srcs_cache:
+            srcs_cache[m] = open(module_path(m)).read().split('\n')
+        lo, hi = ranges[m][t]
+        return '\n'.join(srcs_cache[m][lo - 1:hi])
+
     for o in obls:
         if not o.get('module'):
             continue
@@ -333,11 +350,21 @@ def run_check(prop, spec, tier, seed):
             elif m not in okmods:
                 lo, hi = ranges[m][t]
                 errs = [e for e in errors.get(m, []) if lo <= e[0] <= hi]
+                outside = [e for e in errors.get(m, []) if not any(a <= e[0] <= b for a, b in ranges[m].values())]
                 if errs:
                     status[o['id']] = (False, 'theorem %s no longer checks: line %d: %s' % (t, errs[0][0], errs[0][1][:300]))
-                else:
-                    why = errors.get(m, [(0, 'a module it imports did not build')])[0]
+                elif outside or not errors.get(m):
+                    why = (outside or [(0, 'a module it imports did not build')])[0]
                     status.setdefault(o['id'], (False, 'module %s did not build (line %d: %s)' % (m, why[0], why[1][:300])))
+                else:
+                    # the module failed only inside *other* theorems; Lean elaborated this one without
+                    # error.  It stands unless it uses one of the broken theorems (by name).
+                    bad = broken_names(m)
+                    used = [b for b in bad if re.search(r'\b%s\b' % re.escape(b.split('.')[-1]), text_of(m, t))]
+                    if used:
+                        status.setdefault(o['id'], (False, 'theorem %s uses %s, which no longer checks' % (t, used[0])))
+                    else:
+                        unaudited.add(t)
             else:
                 thms.append(t)
     for o in obls:
@@ -355,6 +382,9 @@ def run_check(prop, spec, tier, seed):
             continue
         bad = None
         for t in o['theorems']:
+            if t in unaudited:
+                R.ev['theorems'][t] = 'elaborated without error; axiom audit skipped (a sibling theorem broke the module)'
+                continue
             s = ax.get(t)
             if s is None:
                 bad = 'theorem %s not found by #print axioms' % t
